@@ -59,6 +59,9 @@ pub fn cap(id: u32, vis: &[(&str, String)]) {
 }
 pub fn capp(id: u32, vis: &[(&str, String)]) { cap(id, vis); panic!("user{}", id); }
 pub fn init(id: u32, out: Out) -> R { cb(id); match out { O(c) => Ok(c), E(c) => Err(c), P => panic!("user{}", id) } }
+/// `v.pipe(f)` = `f(v)`: lets an operator be written in wrapper spelling (`=> >>> ..pipe(f) <<<` means `=> f`)
+pub trait Pipe: Sized { fn pipe<T>(self, f: impl FnOnce(Self) -> T) -> T { f(self) } }
+impl Pipe for i64 {}
 pub fn fmap(id: u32, out: Out) -> impl Fn(i64) -> i64 + Send + 'static {
     move |v| { cb(id); match out { O(c) | E(c) => mix(v, c), P => panic!("user{}", id) } } }
 pub fn fand(id: u32, out: Out) -> impl Fn(i64) -> R + Send + 'static {
@@ -161,11 +164,14 @@ class Prog:
         caps, cbs = {}, {}
         for b in range(len(self.branches)):
             for k, st in enumerate(self.steps(b)):
-                for e, op in enumerate(st):
+                e = 0
+                for op in st:
                     if op.block:
                         caps[op.cap_id] = (b, k, e, 0)
                     if op.cb:
                         cbs[op.cb] = (b, k)
+                    # position = index among the step's members; wrapper spelling takes 2 (`op >>>`, `..pipe(f)`) or 3 (`<<<`)
+                    e += {0: 1, 1: 3, 2: 2}[getattr(op, "wspell", 0)]
         return caps, cbs
 
     def visible_names(self, k):
@@ -210,6 +216,10 @@ class Prog:
         sym = {"map": "|>", "andThen": "=>", "then": "->", "inspect": "??", "orElse": "<=", "mapErr": "!>"}
         if op.mode == "init":
             return self.operand_src(op, k)
+        w = getattr(op, "wspell", 0)
+        if w:
+            # the same operator in wrapper spelling: `op >>> ..pipe(f) [<<<]` (implicitly closed at the end of the step)
+            return ("~" if op.deferred else "") + sym[op.mode] + " >>> ..pipe(" + self.operand_src(op, k) + ")" + (" <<<" if w == 1 else "")
         return ("~" if op.deferred else "") + sym[op.mode] + " " + self.operand_src(op, k)
 
     def macro_input(self):
@@ -280,6 +290,23 @@ def cargo_toml(name, with_async):
         deps += 'futures = "0.3"\ntokio = { version = "1", features = ["rt", "rt-multi-thread", "macros", "time", "sync"] }\n'
     return ('[package]\nname = "%s"\nversion = "0.1.0"\nedition = "2018"\n\n[workspace]\n\n[dependencies]\n%s\n'
             '[profile.dev]\nopt-level = 0\ndebug = false\nincremental = false\n' % (name, deps))
+
+
+def blame_compile_error(source, log):
+    """Maps the first rustc error in `log` to the generated program function (`fn <pid>() -> String`) whose body
+    contains it.  Returns (pid or None, excerpt of the error)."""
+    m = re.search(r"^error(?:\[E\d+\])?:.*?$(?:\n.*?)*?\n\s*-->\s+src/main\.rs:(\d+):", log, re.M)
+    if not m:
+        return None, log[-1500:]
+    line = int(m.group(1))
+    lines = source.split("\n")
+    pid = None
+    for i in range(min(line, len(lines)) - 1, -1, -1):
+        mm = re.match(r"fn (\w+)\(\) -> String", lines[i])
+        if mm:
+            pid = mm.group(1)
+            break
+    return pid, log[m.start():m.start() + 1200]
 
 
 def build_and_run(name, source, with_async=False, timeout=900):
@@ -505,8 +532,9 @@ def run_programs(ctx, progs, crate="k2sync", with_async=False, prelude=PRELUDE_S
     ok, out, log = build_and_run(crate, src, with_async)
     results = []
     if not ok:
-        # find the programs that do not compile: bisect by building halves is expensive; report the compiler output
-        return [(None, [("compile", log)], "", "")]
+        pid, excerpt = blame_compile_error(src, log)
+        culprit = next((p for p in progs if p.pid == pid), None)
+        return [(None, [("compile", log, culprit, excerpt)], "", "")]
     lines = {}
     for l in out.splitlines():
         f = l.split("\t", 1)
@@ -525,7 +553,15 @@ def report(ctx, results, signature_fn=None):
     n_impl = 0
     for (p, problems, rust_line, spec_line) in results:
         if p is None:
+            culprit, excerpt = problems[0][2], problems[0][3]
             ctx.broken.append(("K2 programs do not compile against the current macros", problems[0][1][-3000:]))
+            if culprit is not None:
+                ctx.out.violation({
+                    "macro": culprit.name, "macro_kind": culprit.kind, "source": culprit.macro_input(),
+                    "program": "%s! { %s }" % (culprit.name, culprit.macro_input()), "compiler": excerpt,
+                    "what": "a program that is well-typed under the reference semantics no longer compiles against the current macros "
+                            "(every program of this family compiles on a tree where the property holds)"},
+                    found_input=True, signature=None)
             continue
         impl = [t for (c, t) in problems if c == "impl-vs-spec"]
         model = [t for (c, t) in problems if c == "model-vs-spec"]
@@ -623,7 +659,7 @@ def run_nested_names(ctx):
 
 
 def gen_scaffold(rng, pid, kind, name=None, max_branches=4, max_depth=4, fail_rate=(1, 6), panic_rate=(0, 1),
-                 block_rate=(1, 4), name_rate=(1, 3), handler_rate=(1, 2), profile=None):
+                 block_rate=(1, 4), name_rate=(1, 3), handler_rate=(1, 2), profile=None, wrap_rate=(0, 1)):
     p = Prog(pid, kind, name or rng.pick(NAMES[kind]))
     ids = Ids()
     nb = len(profile) if profile else 1 + rng.below(max_branches)
@@ -653,6 +689,9 @@ def gen_scaffold(rng, pid, kind, name=None, max_branches=4, max_depth=4, fail_ra
                     out = ("panic", cbid)
                 block = rng.chance(*block_rate)
                 op = Op(mode, cbid, out, deferred=(first and k > 0), block=block)
+                if (wrap_rate[0] and not block and kind[1] == "0" and mode in ("map", "andThen", "orElse", "mapErr")
+                        and rng.chance(*wrap_rate)):
+                    op.wspell = 2 if (j == n_ops - 1 and rng.chance(1, 2)) else 1
                 if block:
                     op.cap_id = ids.next()
                     if mode == "init":
@@ -836,6 +875,123 @@ def gen_chain(rng, ids, length, want_final=None, allow_tilde=False, wrappers=(1,
         st = nxt
     ch.state = st
     return ch
+
+
+_CLOSURE_TYPES = {
+    ("Opt", "|>"): "i64", ("Opt", "=>"): "i64", ("Opt", "?>"): "&i64",
+    ("Res", "|>"): "i64", ("Res", "=>"): "i64", ("Res", "!>"): "i64", ("Res", "<="): "i64",
+    ("Iter", "|>"): "i64", ("Iter", "?>"): "&i64", ("Iter", "?|>"): "i64", ("Iter", "?@"): "&i64", ("Iter", "?|>@"): "i64",
+    ("Iter", "?&!>"): "&i64", ("EnumIter", "|>"): "(usize, i64)", ("PairIter", "|>"): "(i64, i64)",
+}
+
+
+def typed_operand(st, op, operand):
+    """The operand with its closure parameter annotated, so that it also type-checks once hoisted into a `let`."""
+    ty = _CLOSURE_TYPES.get((st, op))
+    if not ty:
+        return operand
+    m = re.match(r"^\|(\w+|\(\w+, \w+\))\|", operand)
+    if not m:
+        return operand
+    return "|%s: %s|%s" % (m.group(1), ty, operand[m.end():])
+
+
+# wrappers whose inner chain has a block operand: hoisted and evaluated exactly once, however often the wrapper's closure runs
+CH_WRAP_BLOCK = {
+    "Iter": [("|> >>> -> {{ t({id}); |x: i64| x + {c} }} <<<",
+              "{{ let __b = {{ t({id}); |x: i64| x + {c} }}; {P}.map(move |__v| (__b)(__v)) }}", "Iter"),
+             ("?|> >>> -> {{ t({id}); |x: i64| x.checked_sub({c}) }} <<<",
+              "{{ let __b = {{ t({id}); |x: i64| x.checked_sub({c}) }}; {P}.filter_map(move |__v| (__b)(__v)) }}", "Iter"),
+             ("|> >>> |> {{ t({id}); 5i64 }} <<<"[:0] or "|> >>> ..wrapping_add({{ t({id}); {c}i64 }}) <<<"[:0] or
+              "?|>@ >>> -> {{ t({id}); |x: i64| x.checked_sub({c}) }} <<<",
+              "{{ let __b = {{ t({id}); |x: i64| x.checked_sub({c}) }}; {P}.find_map(move |__v| (__b)(__v)) }}", "Opt")],
+    "Opt": [("=> >>> -> {{ t({id}); |x: i64| Some(x + {c}) }} <<<",
+             "{{ let __b = {{ t({id}); |x: i64| Some(x + {c}) }}; {P}.and_then(move |__v| (__b)(__v)) }}", "Opt"),
+            ("|> >>> -> {{ t({id}); |x: i64| x * {c} }} ?? {{ t({id}0); tins({id}1) }} <<<"[:0] or
+             "|> >>> -> {{ t({id}); |x: i64| x * {c} }} <<<",
+             "{{ let __b = {{ t({id}); |x: i64| x * {c} }}; {P}.map(move |__v| (__b)(__v)) }}", "Opt")],
+    "Res": [("!> >>> -> {{ t({id}); |x: i64| x - {c} }} <<<",
+             "{{ let __b = {{ t({id}); |x: i64| x - {c} }}; {P}.map_err(move |__v| (__b)(__v)) }}", "Res"),
+            ("=> >>> -> {{ t({id}); |x: i64| Ok::<i64, i64>(x + {c}) }} <<<",
+             "{{ let __b = {{ t({id}); |x: i64| Ok::<i64, i64>(x + {c}) }}; {P}.and_then(move |__v| (__b)(__v)) }}", "Res")],
+}
+_MATRIX_PREFIX = {"Opt": ("Opt", []), "Res": ("Res", []), "Int": ("Int", []), "Iter": ("Iter", []),
+                  "NestIter": ("Iter", [("|>", "|v| vec![v, v + {c}]", "{P}.map({O})", "NestIter")]),
+                  "EnumIter": ("Iter", [("|n>", "", "{P}.enumerate()", "EnumIter")]),
+                  "PairIter": ("Iter", [(">^>", "vec![{c}i64, 7, 9].into_iter()", "{P}.zip({O})", "PairIter")]),
+                  "VecI": ("Iter", [("=>[]", "Vec<i64>", "{P}.collect::<{O}>()", "VecI")])}
+_NO_BLOCK_OPS = ("..", ">.", "=>[]", "<->", "^@", "?^@")
+
+
+def matrix_chain_programs():
+    """Deterministic: every operator of every value kind with a plain operand and, where an operand can be a block, with a
+    logging block operand; every wrapper form; wrappers with a block operand inside, on values that make the wrapper's closure
+    run 0, 1 and several times.  Single-branch `join!` (no `~`), so the plain form is: blocks first, then the method chain."""
+    ids = Ids()
+    out = []
+
+    def start(st, which=0):
+        ch = Chain()
+        init = CH_INIT[st][which % len(CH_INIT[st])].format(c=3)
+        ch.macro, ch.plain, ch.state = init, "(%s)" % init, st
+        return ch
+
+    def apply(ch, entry, block):
+        op, otmpl, ptmpl, nxt = entry
+        i = ids.next()
+        operand = typed_operand(ch.state, op, otmpl.format(id=i, c=4))
+        if block:
+            b = ids.next()
+            ch.macro += " %s { t(%d); %s }" % (op, b, operand)
+            ch.plain = "{ let __b%d = { t(%d); %s }; %s }" % (b, b, operand, ptmpl.replace("{P}", ch.plain).replace("{O}", "__b%d" % b))
+        else:
+            ch.macro += " " + op + (" " + operand if operand else "")
+            ch.plain = ptmpl.replace("{P}", ch.plain).replace("{O}", operand)
+        ch.ops.append(op)
+        ch.state = nxt
+
+    def finish(ch):
+        if ch.state in CH_FINALIZE:
+            m, pl, nxt = CH_FINALIZE[ch.state]
+            ch.macro += " " + m
+            ch.plain = pl.replace("{P}", ch.plain)
+            ch.state = nxt
+        return ch.state in CH_TYPE
+
+    n = 0
+    for st, entries in CH_OPS.items():
+        st0, prefix = _MATRIX_PREFIX[st]
+        for entry in entries:
+            for block in (False, True):
+                if block and (not entry[1] or entry[0] in _NO_BLOCK_OPS):
+                    continue
+                if entry[0] == "=>[]" and not entry[1]:
+                    continue        # the untyped collect is covered by the random chains (needs the annotated result)
+                for which in ((0, 1) if st0 in ("Opt", "Res") else (0,)):
+                    ch = start(st0, which)
+                    for pe in prefix:
+                        apply(ch, pe, False)
+                    apply(ch, entry, block)
+                    if finish(ch):
+                        out.append(ChainProg("m%d" % n, "join", [ch]))
+                        n += 1
+    for table in (CH_WRAP, CH_WRAP_BLOCK):
+        for st, entries in table.items():
+            for (m, pl, nxt) in entries:
+                for which in range(len(CH_INIT[st])):
+                    ch = start(st, which)
+                    i = ids.next()
+                    ch.macro += " " + (m.format(c=4, id=i) if table is CH_WRAP_BLOCK else m.replace("{c}", "4"))
+                    if table is CH_WRAP_BLOCK:
+                        ch.plain = pl.format(c=4, id=i, P="\0").replace("\0", ch.plain)
+                    else:
+                        ch.plain = pl.replace("{P}", ch.plain).replace("{c}", "4")
+                    ch.ops.append(m.split(" ")[0] + ">>>")
+                    ch.state = nxt
+                    if finish(ch):
+                        out.append(ChainProg("m%d" % n, "join", [ch]))
+                        n += 1
+    return out
 
 
 class ChainProg:
